@@ -8,6 +8,7 @@ Not decided: that edit distances are what the statement says for every word; dup
 emoji / English / emoticon items."""
 import itertools
 
+import re
 from engine.mir import E, apath, strip_refs, is_const, const_val, callee_name, self_path
 from engine.analyses import (peel_conv, guards_of, path_table, variant_of, contains_call, closure_consumer, truth_table)
 from engine.report import site_of
@@ -459,8 +460,18 @@ def run(ctx):
     if len(dctor) != 1:
         r5.undecidable("load", "Data's constructor fn(&Config) -> Data not found uniquely: %s" % dctor)
     else:
-        maps = [fl["name"] for fl in prog.struct_fields(data_ty) if fl["ty"].startswith("std::collections::HashMap<")]
-        common.verbatim_loads(r5, prog, dctor[0], data_ty, maps, "table")
+        # the tables: HashMap fields of Data itself or of a private struct it embeds; their constructors: whatever reachable from Data's builds that struct
+        owners = [data_ty] + [re.sub(r"<.*$", "", fl["ty"]) for fl in prog.struct_fields(data_ty)
+                              if re.sub(r"<.*$", "", fl["ty"]) in prog.adts and prog.adts[re.sub(r"<.*$", "", fl["ty"])].get("kind") == "struct"
+                              and not re.sub(r"<.*$", "", fl["ty"]).startswith("emojicon")]
+        reach5 = sorted(prog.reach([dctor[0]], foreign_trait_impls=False))
+        for own in owners:
+            maps = [fl["name"] for fl in prog.struct_fields(own) if fl["ty"].startswith("std::collections::HashMap<")]
+            if not maps:
+                continue
+            builders5 = [k for k in reach5 if any(st["k"] == "assign" and st["rv"]["k"] == "aggregate" and st["rv"].get("adt") == own
+                                                   for bl in prog.fns[k]["mir"]["blocks"] for st in bl["stmts"])]
+            common.verbatim_loads(r5, prog, builders5 or [dctor[0]], own, maps, "table")
     r5.floor(3, "three tables")
 
 
